@@ -2,8 +2,11 @@ package main
 
 import (
 	"bytes"
+	"encoding/json"
 	"fmt"
 	"os"
+	"os/exec"
+	"path/filepath"
 	"sort"
 	"strings"
 
@@ -87,6 +90,14 @@ func genC15(o *hx.Out, r *hx.Rng, tier string, replay string) error {
 	}
 	defer os.RemoveAll(dir)
 	procs := []string{"1", "2", "3", "16"}
+	// in-process sequence: the same invocations again, all in ONE process (tagged test in cmd/benchstat)
+	type inprocRun struct {
+		args     []string
+		want     string
+		input    bsInput
+		hasAlpha bool
+	}
+	var seq []inprocRun
 	for i := 0; i < n; i++ {
 		rr := r.Split()
 		in, fl := genBsInput(rr)
@@ -141,6 +152,29 @@ func genC15(o *hx.Out, r *hx.Rng, tier string, replay string) error {
 			}
 			o.Count("race-runs")
 		}
+		// remember this invocation for the in-process sequence (files get unique names there)
+		{
+			sub := filepath.Join(dir, fmt.Sprintf("seq%d", i))
+			os.MkdirAll(sub, 0o755)
+			writeBsFiles(sub, in)
+			for _, format := range []string{"text", "csv"} {
+				args := append([]string{}, in.Flags...)
+				args = append(args, "-format", format)
+				for _, f := range in.Files {
+					p := filepath.Join(sub, f.Name)
+					if f.Label != "" {
+						p = f.Label + "=" + p
+					}
+					args = append(args, p)
+				}
+				want, _, _ := runBinary(exe, sub, in, format, nil)
+				ha := false
+				for _, a := range in.Flags {
+					ha = ha || a == "-alpha" || a == "-confidence"
+				}
+				seq = append(seq, inprocRun{args: args, want: want, input: in, hasAlpha: ha})
+			}
+		}
 		// permuted lines
 		cellsA := cellMap(run)
 		in2 := bsInput{Flags: in.Flags}
@@ -170,6 +204,62 @@ func genC15(o *hx.Out, r *hx.Rng, tier string, replay string) error {
 		input := map[string]interface{}{"input": in, "permuted": in2, "first_diff": firstDiff, "identical": identical, "race_ok": raceOK}
 		o.Add(hx.L(hx.Bool(identical), hx.Bool(raceOK), hx.List(cellsA), hx.List(cellsB), hx.I(nruns)),
 			input, fmt.Sprint(in), ncells >= 2)
+	}
+	// all invocations once more inside one process: forwards, then backwards, so that every
+	// invocation runs both after and before invocations with other flags
+	if len(seq) > 0 {
+		testExe := filepath.Join(os.Getenv("VERIF_WORK"), "benchstat.test")
+		cmd := exec.Command("go", "test", "-c", "-tags", "verif", "-o", testExe, "golang.org/x/perf/cmd/benchstat")
+		cmd.Dir = harnessDir()
+		if out, err := cmd.CombinedOutput(); err != nil {
+			return fmt.Errorf("building benchstat test binary: %v\n%s", err, out)
+		}
+		order := make([]int, 0, 2*len(seq))
+		for i := range seq {
+			order = append(order, i)
+		}
+		for i := len(seq) - 1; i >= 0; i-- {
+			order = append(order, i)
+		}
+		var script [][]string
+		for _, i := range order {
+			script = append(script, seq[i].args)
+		}
+		sp := filepath.Join(dir, "inproc_script.json")
+		op := filepath.Join(dir, "inproc_out.json")
+		js, _ := json.Marshal(script)
+		os.WriteFile(sp, js, 0o644)
+		run := exec.Command(testExe, "-test.run", "^TestVerifInproc$", "-test.count=1")
+		run.Env = append(os.Environ(), "VERIF_INPROC_SCRIPT="+sp, "VERIF_INPROC_OUT="+op)
+		run.Dir = dir
+		rout, rerr := run.CombinedOutput()
+		var results []struct {
+			Stdout string `json:"stdout"`
+			Stderr string `json:"stderr"`
+			Err    string `json:"err"`
+		}
+		if data, err := os.ReadFile(op); err == nil {
+			json.Unmarshal(data, &results)
+		}
+		if rerr != nil || len(results) != len(order) {
+			return fmt.Errorf("in-process benchstat run failed: %v\n%s", rerr, rout)
+		}
+		for k, i := range order {
+			same := results[k].Stdout == seq[i].want
+			o.Count(fmt.Sprintf("inproc same=%v", same))
+			pos := "forward"
+			if k >= len(seq) {
+				pos = "backward"
+			}
+			input := map[string]interface{}{"kind": "in-process sequence", "position": k, "pass": pos, "args": seq[i].args,
+				"input": seq[i].input, "got": results[k].Stdout, "want": seq[i].want}
+			if same {
+				input["got"], input["want"] = "", ""
+			}
+			// same case shape as the others: (identical, race_ok, cellsA, cellsB, runs)
+			o.Add(hx.L(hx.Bool(same), hx.Bool(true), hx.List(nil), hx.List(nil), hx.I(1)), input,
+				fmt.Sprint("inproc", k), true)
+		}
 	}
 	return nil
 }
